@@ -158,6 +158,17 @@ def r1_reverse_lookup(ctx):
             if missing:
                 path_problems.append(("false-without-" + "+".join(missing), "a path answers `not attacked` without consulting the %s table(s)%s" % (
                     ", ".join(missing), (" - it is taken when " + " and ".join(others)) if others else "")))
+    if not found:
+        # not one `lookup & pieces != 0` test on any path: the function decides some other way (a table of
+        # (attack set, pieces) pairs reduced with any(), a fold ...). Are the tables consulted at all?
+        called = set()
+        for blk in f["blocks"]:
+            t_ = blk["term"]
+            if not blk["cleanup"] and t_["k"] == "call" and (t_["callee"].get("key") in (EXT_MAGIC, EXT_NONMAGIC)):
+                called.add(blk["term"]["callee"]["key"])
+        if called:
+            ctx.lost(rid, "_is_square_in_check consults the attack tables but does not test them with `lookup & pieces != 0` on its own paths")
+            return
     seen_pp = set()
     for key, msg in path_problems:
         if key in seen_pp:
